@@ -516,6 +516,17 @@ def run(ctx):
         {"kind": "code", "insns": [], "syms": [{"name": "Z", "at_end": False}], "func": 0},
         {"kind": "code", "insns": [["ret"]], "syms": [{"name": "L2", "at_end": False}], "func": 0}]}
     check_case(ctx, zero_case, [{"kind": "all_blocks", "pos": "entry", "exclude": None}], False, pending)
+    # two functions of one name (distinct local symbols), the module entry point in the second: a filter by ENTRYPOINT_NAME
+    # speaks of the function, not of its name
+    for ent in (0, 2):
+        dup_case = {"isa": "X64", "ff": "ELF", "externs": [], "edits": [], "entry": ent, "dup_names": [[1, 0]], "text": [
+            {"kind": "code", "insns": [["nop"], ["ret"]], "syms": [{"name": "helper", "at_end": False}], "func": 0, "entry": True},
+            {"kind": "code", "insns": [["nop"], ["nop"]], "syms": [{"name": "L1", "at_end": False}], "func": 0},
+            {"kind": "code", "insns": [["nop"], ["ret"]], "syms": [{"name": "other", "at_end": False}], "func": 1, "entry": True},
+            {"kind": "code", "insns": [["ret"]], "syms": [{"name": "third", "at_end": False}], "func": 2, "entry": True}]}
+        check_case(ctx, dup_case, [{"kind": "all_functions", "fpos": "entry", "pos": "entry", "functions": [{"entrypoint": True}]},
+                                   {"kind": "all_blocks", "pos": "entry", "exclude": [{"entrypoint": True}]},
+                                   {"kind": "all_functions", "fpos": "exit", "pos": "exit", "functions": [{"lit": "helper"}]}], False, pending)
     for _ in range(ctx.budget(800, 20000)):
         case = rename_functions(emodify.gen_case(ctx.rng, nedits=0), ctx.rng)
         # some blocks end in a system call instead of a call: a terminator with a Syscall edge
@@ -528,6 +539,9 @@ def run(ctx):
         if ctx.rng.random() < 0.4:
             code = [i for i, d in enumerate(case["text"]) if d["kind"] == "code"]
             case["entry"] = ctx.rng.choice(code)
+        fset = sorted({d["func"] for d in case["text"] if d["kind"] == "code" and d.get("func") is not None})
+        if len(fset) >= 2 and ctx.rng.random() < 0.15:
+            case["dup_names"] = [ctx.rng.sample(fset, 2)]     # two functions of one name
         regs = gen_regs(ctx.rng, case)
         if ctx.rng.random() < 0.15:
             case["lead"] = ctx.rng.randint(1, 5)        # the first block does not start its byte interval
